@@ -42,12 +42,16 @@ RING_CXX = {
 SRC_RANGE = {
     "i8": (-2**7, 2**7 - 1), "u8": (0, 2**8 - 1), "i16": (-2**15, 2**15 - 1), "u16": (0, 2**16 - 1),
     "i32": (-2**31, 2**31 - 1), "u32": (0, 2**32 - 1), "i64": (-2**63, 2**63 - 1), "u64": (0, 2**64 - 1),
+    "ll": (-2**63, 2**63 - 1), "ull": (0, 2**64 - 1),
     "ru6": (0, 2**64 - 1), "ru7": (0, 2**128 - 1), "ri6": (-2**63, 2**63 - 1), "ri7": (-2**127, 2**127 - 1),
 }
 SRC_CXX = {"i8": "int8_t", "u8": "uint8_t", "i16": "int16_t", "u16": "uint16_t", "i32": "int32_t", "u32": "uint32_t",
-           "i64": "int64_t", "u64": "uint64_t", "f": "float", "d": "double", "I": "Integer",
+           "i64": "int64_t", "u64": "uint64_t", "ll": "long long", "ull": "unsigned long long", "f": "float", "d": "double", "I": "Integer",
            "ru6": "ruint<6>", "ru7": "ruint<7>", "ri6": "rint<6>", "ri7": "rint<7>"}
-MAIN_SRCS = ["i32", "u32", "i64", "u64", "f", "d", "I"]
+MAIN_SRCS = ["i32", "u32", "i64", "u64", "ll", "ull", "f", "d", "I"]
+PARTS = [["mi8", "mu8", "mi16", "mu16"], ["mi32", "mu32", "mi64", "mu64"], ["mi8w", "mu8w", "mi16w", "mu16w"], ["mi32w", "mu32w", "mi64w", "mu64w"],
+         ["mf", "md", "mfd", "bd", "bf"], ["bi32", "bi64", "ef", "ed"], ["log16", "mont32", "mI", "gfq32", "gfq64"], ["mru7", "mru67"]]
+PART_OF = {r: i for i, rs in enumerate(PARTS) for r in rs}
 SMALL_SRCS = ["i8", "u8", "i16", "u16"]
 RECINT_SRCS = ["ru6", "ru7", "ri6", "ri7"]
 ELT_RANGE = dict(SRC_RANGE, f=(-2**24, 2**24), d=(-2**53, 2**53))
@@ -197,35 +201,126 @@ CONV_RANGE = {"I": None, "i64": SRC_RANGE["i64"], "u64": SRC_RANGE["u64"], "d": 
 RT_FORMS = ["I", "i64", "u64", "d"]
 
 
+# ------------------------------------------------------------------ known defect domains (frag/C04.findings.json is generated from this table)
+def _sbits(ring):
+    return int(re.sub(r"\D", "", RINGS[ring][1]) or 0)
+
+
+def _srcbits(s):
+    return 64 if s in ("ll", "ull") else int(s[1:])
+
+
+def _integral(ring):
+    return ring[:2] in ("mi", "mu") and ring != "mI"
+
+
+FIX = {1: "964499d", 2: "6fd4ec8", 3: "0c8663a", 4: "6534350"}     # /repo commits that repaired the defect (frag/C04.fix-<n>.diff)
+
+
+def defect_rules():
+    """(klass, ring predicate, sources, input domain (ring,src,m,x)->bool, what, fix number or None); first match wins"""
+    tmin = lambda r, s, m, x: x == SRC_RANGE[s][0]
+    LL = ("i32", "i64", "ll")
+    neg = lambda r, s, m, x: x < 0
+    return [
+        ("type-min", lambda r: _integral(r), LL, lambda r, s, m, x: tmin(r, s, m, x) and _sbits(r) < _srcbits(s),
+         "|y| % p is computed with -y, which overflows for the most negative value; negin() then returns p + |r| (not canonical)", 2),
+        ("type-min", lambda r: r in ("mf", "mfd"), LL, tmin,
+         "std::abs(a) % p overflows for the most negative value; the remainder is negative and negin() yields p + |r|", 2),
+        ("type-min", lambda r: r == "ef", ("i32", "i64"), tmin,
+         "std::abs(a) % p overflows for the most negative value; the remainder is negative and negin() yields p + |r|", 2),
+        ("type-min", lambda r: r == "md", ("i64", "ll"), tmin,
+         "std::abs(a) % p overflows for INT64_MIN; the remainder is negative and negin() yields a wrong element", 2),
+        ("type-min", lambda r: r == "mont32", ("i64",), tmin,
+         "std::abs(a) % p overflows for INT64_MIN; the remainder is negative and negin() yields a wrong element", 2),
+        ("truncated-to-32-bits", lambda r: r == "mont32", ("ll", "ull"), lambda r, s, m, x: abs(x) >= 2**32,
+         "long long / unsigned long long are not int64_t / uint64_t (long): the generic template is selected, which casts |a| to "
+         "uint32_t BEFORE reducing (`T is supposed to fit into an Element`)", None),
+        ("type-min", lambda r: r in ("mu64", "mu64w", "mru7", "mru67"), ("i32",), tmin,
+         "generic init: -y overflows in int for INT32_MIN and the sign-extended value 2^64-2^31 is reduced instead of 2^31", None),
+        ("type-min", lambda r: r in ("gfq32", "gfq64"), ("i32", "i64"), tmin,
+         "tr = -tr overflows; the table index _q - tr is far outside _pol2log (out-of-bounds read; crashes for int32_t)", None),
+        ("negative-Integer", lambda r: r in ("bd", "bf", "bi32", "bi64"), ("I",), neg,
+         "y % _p keeps the sign of y but only NORMALISE_HI is applied: results below _mhalfp are not canonical", 1),
+        ("negative-Integer", lambda r: _integral(r) and (RINGS[r][1][0] == "u" or _sbits(r) == 8), ("I",), neg,
+         "the signed remainder y % _p is cast to an unsigned / 8-bit Element before the `x < 0` correction: sign lost", 4),
+        ("negative-multiple-of-m", lambda r: r == "log16", ("i8", "i16", "i32", "i64", "f", "d"),
+         lambda r, s, m, x: x < 0 and x % m == 0 and abs(x) < 2**63,
+         "init(int64_t): r = p - 0 = p indexes _tab_value2rep one past its end", 3),
+        ("above-signed-max", lambda r: (_integral(r) and RINGS[r][1][0] == "i") or r in ("bi32", "bi64"), ("u8", "u16", "u32", "u64", "ull"),
+         lambda r, s, m, x: _srcbits(s) == _sbits(r) and x > SRC_RANGE[s][1] // 2,
+         "an unsigned source of the storage width goes through Caster<Element>(y): values >= 2^(N-1) wrap to negative numbers", None),
+        ("modulus-not-representable-in-source", lambda r: r in ("mi32w", "mu32w", "mi64w", "mu64w"), ("f", "d"),
+         lambda r, s, m, x: _sbits(r) == (32 if s == "f" else 64) and not float_representable(m, 24 if s == "f" else 53),
+         "fmod(y, Source(_p)): the modulus is rounded to the floating source type, every residue is taken modulo the wrong number", None),
+        ("float-beyond-element-range", lambda r: r in ("mi64", "mi64w"), ("f",), lambda r, s, m, x: abs(x) >= 2**63,
+         "generic init casts the float to int64_t before reducing: undefined for |y| >= 2^63", None),
+        ("float-beyond-element-range", lambda r: r in ("mu64", "mu64w"), ("f",), lambda r, s, m, x: abs(x) >= 2**64,
+         "generic init casts |y| to uint64_t before reducing: undefined for |y| >= 2^64", None),
+        ("float-beyond-element-range", lambda r: r in ("mru7", "mru67", "gfq64"), ("f", "d"), lambda r, s, m, x: abs(x) >= 2**64,
+         "the floating value is cast to a 64-bit word before reducing: undefined for |y| >= 2^64", None),
+        ("float-beyond-element-range", lambda r: r == "log16", ("f", "d"), lambda r, s, m, x: abs(x) >= 2**63,
+         "init(double) is init((int64_t)i): undefined for |i| >= 2^63", None),
+        ("float-beyond-element-range", lambda r: r == "mont32", ("f",), lambda r, s, m, x: abs(x) >= 2**32,
+         "generic init (documented: `T is supposed to fit into an Element`) casts |a| to uint32_t: undefined for |a| >= 2^32", None),
+        ("wider-than-element", lambda r: r in ("mru7", "mru67"), ("I",), lambda r, s, m, x: abs(x) >= 2**(128 if r == "mru7" else 64),
+         "Caster<ruint<K>>(|a|) keeps the low 2^K bits of the Integer before reducing", None),
+        ("beyond-exact-floating-range", lambda r: r in ("ed", "bd"), ("ll", "ull"), lambda r, s, m, x: abs(x) >= 2**53,
+         "long long / unsigned long long select the generic template: Caster<double>(a) rounds values beyond 2^53 before reducing", None),
+        ("beyond-exact-floating-range", lambda r: r == "bf", ("ll", "ull"), lambda r, s, m, x: abs(x) >= 2**24,
+         "long long / unsigned long long select the generic template: Caster<float>(a) rounds values beyond 2^24 before reducing", None),
+        ("beyond-exact-floating-range", lambda r: r == "ef", ("ll", "ull"), lambda r, s, m, x: abs(x) >= 2**24,
+         "long long / unsigned long long select the generic template: Caster<float>(a) rounds values beyond 2^24 before reducing", None),
+        ("truncated-to-32-bits", lambda r: r == "bi32", ("ll", "ull"), lambda r, s, m, x: not (-2**31 <= x < 2**31),
+         "long long / unsigned long long select the generic template, which casts to int32_t BEFORE reducing", None),
+        ("beyond-exact-floating-range", lambda r: r == "ed", ("I", "i64", "u64", "f", "d"), lambda r, s, m, x: abs(x) >= 2**53,
+         "generic init = Caster<double>(a) (rounds) + one-step FMA reduce (valid for |a| < 2^53 only); the exact int64_t/uint64_t/Integer "
+         "specialisations are declared for `const T` and never selected", None),
+        ("beyond-exact-floating-range", lambda r: r == "ef", ("I", "f"), lambda r, s, m, x: abs(x) >= 2**24,
+         "generic init = Caster<float>(a) (rounds, inf for wide Integers) + one-step FMA reduce (valid for |a| < 2^24 only); the "
+         "`const Integer&` specialisation is never selected", None),
+    ]
+
+
+_RULES = None
+
+
 def klass_of(ring, src, m, x):
-    """input class used as the key of known findings (never the concrete value); ordered from the most specific"""
-    if src in SRC_RANGE and SRC_RANGE[src][0] < 0 and x == SRC_RANGE[src][0]:
-        return "type-min"
-    if src in ("f", "d"):
-        prec = 24 if src == "f" else 53
-        if not float_representable(m, prec):
-            return "modulus-not-representable-in-source"
-        a = abs(x)
-        for b in (64, 63, 53, 32, 31, 24):
-            if a >= 2**b:
-                return "magnitude>=2^%d" % b
-        return "negative" if x < 0 else ("ge-m" if x >= m else "small")
-    if src in ("u8", "u16", "u32", "u64") and x > SRC_RANGE[src][1] // 2:
-        return "above-signed-max"
-    a = abs(x)
-    if src == "I" or src in RECINT_SRCS:
-        for b in (128, 64, 63, 53, 24):
-            if a >= 2**b:
-                return ("negative-" if x < 0 else "") + "magnitude>=2^%d" % b
+    """input class used as the key of known findings (never the concrete value): the domain of a known defect of this
+    (ring, source) pair when the input lies in it, a generic class otherwise"""
+    global _RULES
+    if _RULES is None:
+        _RULES = defect_rules()
+    for kl, rp, srcs, dom, what, fix in _RULES:
+        if src in srcs and rp(ring) and dom(ring, src, m, x):
+            return kl
     if x < 0:
-        return "negative-multiple-of-m" if x % m == 0 else "negative"
-    if src in ("i64", "u64"):
-        for b in (53, 24):
-            if a >= 2**b:
-                return "magnitude>=2^%d" % b
-    if src in ("i32", "u32") and a >= 2**24:
-        return "magnitude>=2^24"
+        return "negative"
     return "ge-m" if x >= m else "small"
+
+
+def findings():
+    out = []
+    for kl, rp, srcs, dom, what, fix in defect_rules():
+        for ring in sorted(RINGS):
+            if not rp(ring):
+                continue
+            for src in srcs:
+                # keep only the (ring, source) pairs whose domain can be non-empty
+                m_probe = [3, 16777259, 2**31 - 1, 2**32 - 5, 2**63 - 25, 2**64 - 59]
+                lo, hi = SRC_RANGE.get(src, (-2**300, 2**300))
+                xs = [lo, hi, -3, -6, 2**24, -2**24, 2**32, 2**53, -2**53, 2**63, -2**63, 2**64, -2**64, 2**128, -2**128, 2**31, 2**15, 2**7, 200, 40000]
+                if not any(dom(ring, src, m, x) for m in m_probe for x in xs if lo <= x <= hi):
+                    continue
+                e = {"property": "C04", "status": "fixed" if fix else "known", "site": "%s::init(%s)" % (RING_CXX[ring], SRC_CXX[src]), "klass": kl}
+                if fix:
+                    e["commit"] = FIX[fix]
+                    e["what"] = "fixed: property=C04 %s %s" % (FIX[fix], what)
+                else:
+                    e["what"] = what
+                e["repro"] = "harness/c04_repro.C (standalone, against the real headers); or: bin/check C04 quick with the finding removed"
+                out.append(e)
+    return out
 
 
 # ------------------------------------------------------------------ running the implementation
@@ -274,12 +369,12 @@ def gen_cases(rings, cards, rng, tier):
                     # RecInt sources reach the word rings through the generic `Caster<Element>(a)`, a plain static_cast that
                     # keeps the low word / rounds to double: only values the element type holds exactly are in the claim here
                     elo, ehi = ELT_RANGE.get(elt, (-2**63, 2**63))
-                    vals = [v for v in vals if elo <= v <= ehi and abs(v) < 2**31][::2]
+                    vals = [v for v in vals if max(0, elo) <= v <= ehi and v < 2**31][::2]
                 elif src in SMALL_SRCS and quick:
                     vals = vals[::2] + vals[-2:]
                 for x in vals:
                     cases.append(("init", ring, src, p, k, x))
-                if src in ("i64", "I", "d", "u32"):
+                if src in ("i64", "I", "d", "u32", "ll"):
                     for x in vals[::3]:
                         cases.append(("rt", ring, src, p, k, x))
     return cases
@@ -316,13 +411,22 @@ def main(tier, replay=None):
     drv, l1 = vf.ocaml_build(AREA) if os.path.exists(os.path.join(vf.coq_dir(AREA), "ocaml", "model.ml")) else (None, "extraction did not run")
     if drv is None:
         chk.broke("extracted model driver does not build", l1)
-    himpl, l2 = vf.build_harness("c04_init.C", link_lib=True, deps=["c04_allow.inc"])
-    if himpl is None:
-        chk.broke("implementation harness does not compile against /repo", l2)
+    def build_part(i):
+        return vf.build_harness("c04_init.C", extra_flags=["-DC04_PART=%d" % i], link_lib=True, deps=["c04_allow.inc"], name="c04_init_p%d" % i)
+    vf.build_repo_lib()
+    with ThreadPoolExecutor(max_workers=len(PARTS)) as ex:
+        built = list(ex.map(build_part, range(len(PARTS))))
+    himpl = {}
+    for i, (b, lg) in enumerate(built):
+        if b is None:
+            chk.broke("implementation harness (part %d: %s) does not compile against /repo" % (i, " ".join(PARTS[i])), lg)
+        for r in PARTS[i]:
+            himpl[r] = b
+    if any(b is None for b, _ in built):
         return chk.finish()
     # cardinalities are read from the implementation, not hard-coded
     rings = sorted(RINGS)
-    card_out = run_impl(himpl, ["card %s - 0 0 0" % r for r in rings])
+    card_out = [run_impl(himpl[r], ["card %s - 0 0 0" % r])[0] for r in rings]
     cards = {}
     for r, l in zip(rings, card_out):
         t = l.split()
@@ -346,7 +450,7 @@ def main(tier, replay=None):
 
     def run_ring(ring):
         cs = by_ring[ring]
-        io = run_impl(himpl, ["%s %s %s %d %d %d" % c for c in cs])
+        io = run_impl(himpl[ring], ["%s %s %s %d %d %d" % c for c in cs])
         mo = None
         if drv:
             rc, mo, merr = vf.run_lines(drv, "".join(model_line(c) + "\n" for c in cs), timeout=1500)
@@ -357,6 +461,7 @@ def main(tier, replay=None):
         results = dict(ex.map(run_ring, sorted(by_ring)))
     # 4. three-way comparison
     dist = {}
+    bad_init = set()
     ncorr = 0
     nub = 0
     for ring in sorted(by_ring):
@@ -402,6 +507,8 @@ def main(tier, replay=None):
                                 chk.fail_input("%s::convert(%s)" % (RING_CXX[ring], form), "canonical-element", case, str(want_lift), got,
                                                "convert of the canonical element is not its canonical lift")
                             break
+                if len(chk.failing) != nfail:
+                    bad_init.add((ring, src, p, k, x))
                 # correspondence
                 if ml is not None and len(chk.failing) == nfail and ml[0] not in ("NOMODEL",):
                     if ml[0] == "UB":
@@ -414,14 +521,14 @@ def main(tier, replay=None):
                                       % (site, m, x, ml[0], got_m))
             elif op == "rt":
                 want_lift = lift(ring, m, x)
-                if kind != "tab" and t[0] != str(canon(ring, m, x)):
+                if (ring, src, p, k, x) in bad_init or (kind != "tab" and t[0] != str(canon(ring, m, x))):
                     continue            # init itself is off: reported by the init case of the same input
                 for form, got in zip(RT_FORMS, t[1:]):
                     rg = CONV_RANGE[form]
                     if rg is not None and not (rg[0] <= want_lift <= rg[1]):
                         continue        # the lift does not fit the intermediate type: outside the claim
                     if got != t[0]:
-                        chk.fail_input("%s::init(%s)/roundtrip" % (RING_CXX[ring], SRC_CXX[{"I": "I", "i64": "i64", "u64": "u64", "d": "d"}[form]]),
+                        chk.fail_input("%s::init(%s)/roundtrip" % (RING_CXX[ring], SRC_CXX[form]),
                                        klass_of(ring, form, m, want_lift), case, t[0], got, "init(convert<%s>(e)) != e" % form)
                         break
                 if ml is not None and len(chk.failing) == nfail and ml[0] not in ("NOMODEL", "UB") and kind != "tab":
